@@ -928,6 +928,15 @@ func (ex *Exec) atLoopHeader(st *State, li *loopInfo) bool {
 			g := ex.specBool(st, inv.Expr, &specCtx{mode: "loop"})
 			ex.oblige(st, "inv-entry", label+"/"+inv.Label, g, inv.Tags, hdrInstr, inv.Src)
 		}
+		// the global invariants are implicit loop invariants
+		ginvBefore := map[string]string{}
+		for _, inv := range ex.loopGlobalInvariants() {
+			t := ex.specBool(st, inv.Expr, &specCtx{mode: "exitinv"})
+			ginvBefore[inv.Label] = t.S
+			if t.S != ex.entryInv[inv.Label] {
+				ex.oblige(st, "inv-entry", label+"/global/"+inv.Label, t, inv.Tags, hdrInstr, inv.Src)
+			}
+		}
 		// havoc
 		for _, a := range li.stored {
 			if sv, ok := st.cells[a]; ok {
@@ -937,6 +946,12 @@ func (ex *Exec) atLoopHeader(st *State, li *loopInfo) bool {
 		ex.havocHeap(st, pre, li.touch, li.globals, ex.loopAssigns(pre, lc), "lp")
 		for _, inv := range lc.Invariants {
 			st.assume(ex.specBool(st, inv.Expr, &specCtx{mode: "loop"}))
+		}
+		for _, inv := range ex.loopGlobalInvariants() {
+			t := ex.specBool(st, inv.Expr, &specCtx{mode: "exitinv"})
+			if t.S != ginvBefore[inv.Label] {
+				st.assume(t)
+			}
 		}
 		lf := &loopFrame{pre: pre}
 		if lc.Decreases != nil {
@@ -960,6 +975,13 @@ func (ex *Exec) atLoopHeader(st *State, li *loopInfo) bool {
 		g := ex.specBool(st, inv.Expr, &specCtx{mode: "loop"})
 		ex.oblige(st, "inv-preserved", label+"/"+inv.Label, g, inv.Tags, hdrInstr, inv.Src)
 	}
+	for _, inv := range ex.loopGlobalInvariants() {
+		t := ex.specBool(st, inv.Expr, &specCtx{mode: "exitinv"})
+		h := ex.specBool(lf.head, inv.Expr, &specCtx{mode: "exitinv"})
+		if t.S != h.S {
+			ex.oblige(st, "inv-preserved", label+"/global/"+inv.Label, t, inv.Tags, hdrInstr, inv.Src)
+		}
+	}
 	if lf.hasVar {
 		v := ex.spec(st, lc.Decreases.Expr, &specCtx{mode: "loop"})
 		ex.oblige(st, "variant", label+"/decreases", And(Ge(lf.variant, IntLit(0)), Lt(v.T, lf.variant)), []string{"C14"}, hdrInstr, lc.Decreases.Src)
@@ -969,6 +991,16 @@ func (ex *Exec) atLoopHeader(st *State, li *loopInfo) bool {
 	// loop frame: everything outside the declared write set is as before the loop
 	ex.frameObligations(st, lf.pre, ex.loopAssigns(lf.pre, lc), "loop-frame", label, hdrInstr, nil)
 	return false
+}
+
+// loopGlobalInvariants: the global invariants are implicit invariants of
+// every loop, except inside a builder literal passed to Once.Do, whose own
+// invariant is re-established only when Do marks the Once done.
+func (ex *Exec) loopGlobalInvariants() []*Clause {
+	if ex.fn != nil && ex.p.onceOfLiteral(ex.fn) != nil {
+		return nil
+	}
+	return ex.p.Contracts.Invariants
 }
 
 func (ex *Exec) loopAssigns(pre *State, lc *LoopContract) *assignSet {
